@@ -112,7 +112,11 @@ func (g *Gen) checkWrite(p string, n int64, pos token.Pos) {
 }
 
 func (g *Gen) checkRegionWrite(r Region, pos token.Pos, what string) {
-	fresh := app(">", r.Obj, "alloc@0")
+	// a region at the nil object contains no cell (a real write through nil is caught by the nil/valid checks)
+	fresh := sOr(app(">", r.Obj, "alloc@0"), sEq(r.Obj, "0"))
+	if r.TypeID != "" {
+		fresh = "false"
+	}
 	if !g.assignAll {
 		alts := []string{fresh}
 		for _, fr := range g.fnAssigns {
@@ -122,7 +126,10 @@ func (g *Gen) checkRegionWrite(r Region, pos token.Pos, what string) {
 	}
 	for _, l := range g.loops {
 		if l.Checked && l.Blocks[g.curBlock] {
-			alts := []string{app(">", r.Obj, l.HeadSt.Alloc)}
+			alts := []string{app(">", r.Obj, l.HeadSt.Alloc), sEq(r.Obj, "0")}
+			if r.TypeID != "" {
+				alts = nil
+			}
 			for _, lr := range l.Regions {
 				alts = append(alts, g.regionSub(r, lr))
 			}
